@@ -13,12 +13,16 @@ AllFormats == {"uri", "uripost", "raw", "json"}
 EntryQuick == << [n |-> "X-A", v |-> "ea"], [n |-> "x-c", v |-> "ec"], [n |-> "User-Agent", v |-> "ua-entry"] >>
 EntryBig   == EntryQuick \o << [n |-> "X-B", v |-> "eb"] >>   \* (not used by the shipped configs: 2x the space)
 OptAlpha   == << [n |-> "Host", v |-> "OPTHOST"], [n |-> "X-A", v |-> "oa"], [n |-> "X-C", v |-> "oc"] >>
+\* thorough: the option list may repeat a name (both values must be added, in order, where the entry has none)
+OptAlphaBig == OptAlpha \o << [n |-> "X-C", v |-> "oc2"] >>
 
 MethodsQuick == {"GET", "POST", "PURGE"}
-MethodsBig   == {"GET", "POST", "DELETE", "HEAD", "OPTIONS", "PURGE"}
+MethodsBig   == {"GET", "POST", "HEAD", "PURGE"}
 URIsQuick    == {"/", "/a/b?x=1&y=%20z"}
+URIsBig      == URIsQuick \cup {"/q?u=http://e.test/p?a=b&c=/d/"}
+NoURIs       == {}
 \* the last one is not an RFC 3986 URI ("|" unescaped): net/http re-encodes its path (known finding)
-URIsBig      == URIsQuick \cup {"/a%2Fb/c;p=1/", "/q?u=http://e.test/p?a=b&c=/d/", "/p|q/r?x=a|b"}
+ExtraBig     == {"/a%2Fb/c;p=1/", "/dbl//slash/../x/./y", "/p|q/r?x=a|b"}
 BodiesOne    == {"k=v&x=%20 two {\"j\":[1,2]}"}
 
 Both     == {TRUE, FALSE}
